@@ -1,8 +1,10 @@
 import FurikoModel.Driver.HeapD
+import FurikoModel.Driver.CronD
 open Furiko Furiko.Driver
 
 structure DState where
   heap : Heap.PQ := default
+  cron : CronDS := {}
 
 def step (s : DState) (line : String) : DState × String :=
   let t := toks line
@@ -12,6 +14,9 @@ def step (s : DState) (line : String) : DState × String :=
     if op.startsWith "heap." then
       let (h, o) := heapStep s.heap t
       ({ s with heap := h }, o)
+    else if op.startsWith "cron." then
+      let (c, o) := cronStep s.cron t
+      ({ s with cron := c }, o)
     else (s, "bad-op")
 
 partial def loop (hin : IO.FS.Stream) (hout : IO.FS.Stream) (s : DState) : IO Unit := do
